@@ -89,6 +89,7 @@ def plan(tier, seed):
         add("ctc", 400, 1)
         add("ds", 60, 2)
         add("exhaustive", 2 ** 9, 1, grid=[3, 3])
+        add("tdms", 12, 1)
     else:
         add("contour", 40000, 16)
         add("poly", 16000, 8)
@@ -99,6 +100,7 @@ def plan(tier, seed):
         add("exhaustive", 2 ** 16, 4, grid=[4, 4])
         add("exhaustive", 2 ** 15, 2, grid=[3, 5])
         add("exhaustive", 2 ** 14, 1, grid=[2, 7])
+        add("tdms", 240, 2)
         shards.append({"kind": "sanitizer", "cases": [0]})
     return shards
 
@@ -1462,6 +1464,83 @@ def run_ds(ctx, idx):
             os.unlink(path)
 
 
+# ------------------------------------------------------------------ .tdms masks
+TDMS_FIXTURES = ["fmt-tdms_fl-image_2016.zip", "fmt-tdms_fl-image-bright_2017.zip",
+                 "fmt-tdms_fl-image-large-fov_2017.zip", "fmt-tdms_minimal_2016.zip"]
+
+
+def run_tdms(ctx, idx):
+    """The masks a .tdms dataset computes on the fly are its contours, refilled: every mask a
+    client holds (collected in a list, fetched in any order, fetched again, with other events
+    fetched in between) is the plotted contour of its own event with the holes filled, and the
+    brightness computed from collected masks is the brightness of the single events."""
+    import scipy.ndimage as ndi
+    import dclab
+    from dclab.features import bright as bright_mod
+    from vmon.work.c02 import tdms_fixture
+    rng = _set_case(ctx, idx, 11)
+    name = TDMS_FIXTURES[idx % len(TDMS_FIXTURES)]
+    try:
+        path = tdms_fixture(name)
+    except Exception as exc:
+        ctx.count("tdms_fixture_unavailable")
+        ctx.error("tdms fixture", exc)
+        return
+    ds = dclab.new_dataset(path)
+    if "mask" not in ds or "contour" not in ds or "image" not in ds:
+        ctx.count("tdms_fixture_without_mask")
+        return
+    n = len(ds)
+    usable = []
+    for i in range(n):
+        try:
+            ds["contour"][i]
+            usable.append(i)
+        except IndexError:
+            ctx.count("tdms_event_without_contour")     # documented for this format
+    if len(usable) < 2:
+        return
+    k = int(rng.integers(2, min(len(usable), 8) + 1))
+    order = [int(v) for v in rng.choice(usable, k, replace=bool(rng.random() < 0.3))]
+    shape = tuple(np.asarray(ds["image"][usable[0]]).shape[:2])
+
+    def refill(i):
+        c = np.asarray(ds["contour"][i])
+        m = np.zeros(shape, dtype=bool)
+        m[c[:, 1], c[:, 0]] = True
+        return ndi.binary_fill_holes(m)
+
+    pattern = int(rng.integers(0, 3))
+    held = []
+    for i in order:
+        held.append((i, ds["mask"][i]))
+        if pattern == 1 and rng.random() < 0.5:
+            ds["mask"][int(rng.choice(usable))]             # another event in between
+        if pattern == 2:
+            ds["image"][i]
+    ctx.count(f"tdms_mask_hold_pattern[{pattern}]")
+    for pos, (i, m) in enumerate(held):
+        want = refill(i)
+        ctx.check("contour_refill", np.array_equal(np.asarray(m, dtype=bool), want),
+                  lambda: {"fixture": name, "event": i, "position_in_client_list": pos,
+                           "events_fetched": order, "pixels_held": int(np.sum(m)),
+                           "pixels_of_refilled_contour": int(want.sum())},
+                  message=f"mask of .tdms event {i} held by the client (fetched {pos + 1}. of "
+                          f"{len(order)}) is not its refilled contour")
+    # brightness from the collected masks equals the per-event brightness
+    imgs = [np.asarray(ds["image"][i]) for i, _ in held]
+    if all(im.ndim == 2 for im in imgs) and all(refill(i).any() for i, _ in held):
+        got = bright_mod.get_bright([m for _, m in held], imgs, ret_data="avg")
+        want = [float(np.mean(im[refill(i)])) for (i, _), im in zip(held, imgs)]
+        ctx.check("bright_def", bool(np.allclose(np.atleast_1d(got), want, rtol=1e-12, atol=0)),
+                  lambda: {"fixture": name, "events": order, "got": np.atleast_1d(got),
+                           "definition": want},
+                  message="brightness from masks collected from a .tdms dataset differs from "
+                          "the mean of the image under each event's refilled contour")
+    ctx.count("tdms_cases")
+    ctx.mark_nontrivial(["tdms", name, order])
+
+
 # ------------------------------------------------------------------ sanitizer adjunct
 def run_sanitizer(ctx, spec):
     """Optional (thorough): rerun a contour workload against ASan+UBSan builds of the
@@ -1563,5 +1642,7 @@ def run(spec, ctx):
             run_ctc(ctx, idx)
         elif kind == "ds":
             run_ds(ctx, idx)
+        elif kind == "tdms":
+            run_tdms(ctx, idx)
         else:
             raise ValueError(kind)
